@@ -82,6 +82,7 @@ def record_abs(tid, inst, cf, ops, unique, want_aux):
     cf = dict(cf)
     cf.setdefault('slack', 0)
     cf.setdefault('tables', True)
+    cf.setdefault('oracle', True)
     cf.setdefault('debug', False)
     m = absm.mk_matcher(inst, cf)
     sn = Snapper(m)
